@@ -8,15 +8,16 @@
   the network accepts `limit + max(vt, rt·limit)` per line, and that tolerance term is explicit below.
   Exact arithmetic; that the doubles stay within 1e-9 of it is validated by correspondence (partial).
 -/
-import AcnProofs.Lemmas.SitesXfmr
+import AcnProofs.Lemmas.SitesPrimary
 import Mathlib.Analysis.Real.Sqrt
 
 namespace Acn.C16
-open Acn Acn.Feas Acn.Sites Acn.Gen.Sites Acn.SitesFeas Acn.SitesTopo Acn.SitesMain Acn.SitesXfmr
+open Acn Acn.Feas Acn.Sites Acn.Gen.Sites Acn.SitesFeas Acn.SitesTopo Acn.SitesMain Acn.SitesXfmr Acn.SitesPrimary
 
 /-! ## T1 obligations on the regenerated data -/
 
-def siteTopos (s : String) : List Topo := topos.filter (·.site == s)
+/-- the topologies of site `s` built with the default `voltage=208` -/
+def siteTopos (s : String) : List Topo := topos.filter fun T => T.site == s && T.nominalV == (208, 1)
 
 /-- (name, number of EVSEs, rating) of the pods -/
 def podTable (T : Topo) : List (String × Nat × Option (Int × Nat)) :=
@@ -60,12 +61,25 @@ theorem site_structure_office001 :
     structureOk "office001" 8 [("", 8, some 0)] [] [] = true := by
   decide +kernel
 
-/-- every executed factory call (3 sites × basic/real EVSEs × 3 capacity settings): the limits the
-    object carries equal the parsed formulas at the capacities passed (2⁻⁴⁰ relative for the
-    double rounding; `√3` formulas compared in squared form), literal ratings exactly. -/
+/-- every executed factory call (3 sites × basic/real EVSEs × 3 capacity settings at 208 V and one at
+    240 V, plus the deprecated `CaltechACN` wrapper called by keyword and positionally): the limits the
+    object carries equal the parsed formulas at the capacities passed (2⁻⁴⁰ relative for the double
+    rounding; `√3` formulas compared in squared form), literal ratings exactly; the wrapper's networks
+    have the same topology as `caltech_acn`'s (a swapped positional argument would create a new one). -/
 theorem site_instances :
-    insts.length = 18 ∧ insts.all instOk = true ∧
-    (insts.map fun I => (I.topo, I.basic)).eraseDups.length = 6 := by
+    insts.length = 26 ∧ insts.all instOk = true ∧
+    (insts.map fun I => (I.topo, I.basic)).eraseDups.length = 12 ∧
+    (insts.filter (·.factory == "CaltechACN")).length = 2 ∧
+    ((insts.filter (·.factory == "CaltechACN")).all fun I =>
+      insts.any fun J => J.factory == "caltech_acn" && J.topo == I.topo) = true := by
+  decide +kernel
+
+/-- the `voltage` argument only changes the EVSE voltages: six topologies (3 sites × {208, 240} V), all
+    pass `topoOk` (every EVSE carries exactly the requested voltage), and erasing the voltages leaves
+    three. -/
+theorem site_structure_all_voltages :
+    topos.length = 6 ∧ topos.all topoOk = true ∧
+    (topos.map fun T => { T with nominalV := (0, 1), voltages := [] }).eraseDups.length = 3 := by
   decide +kernel
 
 /-! ## the algebraic core -/
@@ -100,25 +114,10 @@ theorem line_current_sq (T : Topo) (hT : topoOk T = true) (tr : Triple) (htr : t
   intro X Y Z
   have G := topoFacts_of T hT
   have F := tripleFacts_of T tr htr
-  have e : ∀ i, i < T.rows.length →
-      (netOf T r caps).M.getD i [] = denseRow (nStations T) (rowOf T i) := by
-    intro i hi
-    show (List.map (denseRow (K := K) (nStations T)) T.rows).getD i [] = _
-    rw [getD_of_lt _ _ _ (by simpa using hi), List.getElem_map]
-    unfold rowOf; rw [getD_of_lt _ _ _ hi]
   refine ⟨?_, ?_, ?_, groupSum_split T tr F G x hx⟩
-  · unfold aggSq; simp only []; rw [e _ F.ha]
-    show aggRe _ x (T.angles.map (cosK r)) * aggRe _ x (T.angles.map (cosK r)) +
-      aggIm _ x (T.angles.map sinK) * aggIm _ x (T.angles.map sinK) = _
-    rw [aggA_re T tr F G r x hx, aggA_im T tr F G x hx, SitesAlg.lineA_sq r _ _ hr]
-  · unfold aggSq; simp only []; rw [e _ F.hb]
-    show aggRe _ x (T.angles.map (cosK r)) * aggRe _ x (T.angles.map (cosK r)) +
-      aggIm _ x (T.angles.map sinK) * aggIm _ x (T.angles.map sinK) = _
-    rw [aggB_re T tr F G r x hx, aggB_im T tr F G x hx, SitesAlg.lineB_sq r _ _ hr]
-  · unfold aggSq; simp only []; rw [e _ F.hc]
-    show aggRe _ x (T.angles.map (cosK r)) * aggRe _ x (T.angles.map (cosK r)) +
-      aggIm _ x (T.angles.map sinK) * aggIm _ x (T.angles.map sinK) = _
-    rw [aggC_re T tr F G r x hx, aggC_im T tr F G x hx, SitesAlg.lineC_sq r _ _ hr]
+  · rw [aggSq_eq T r caps x _ F.ha, aggA_re T tr F G r x hx, aggA_im T tr F G x hx, SitesAlg.lineA_sq r _ _ hr]
+  · rw [aggSq_eq T r caps x _ F.hb, aggB_re T tr F G r x hx, aggB_im T tr F G x hx, SitesAlg.lineB_sq r _ _ hr]
+  · rw [aggSq_eq T r caps x _ F.hc, aggC_re T tr F G r x hx, aggC_im T tr F G x hx, SitesAlg.lineC_sq r _ _ hr]
 
 /-! ## the power bound -/
 
@@ -263,6 +262,129 @@ example : ∃ (r : ℝ) (S : List (List ℝ)), r * r = 3 ∧ topoOk topo0 = true
   · simp [topo0, groupSum, sumK, period, col]
     norm_num
 
+/-! ## converse and tightness -/
+
+/-- **Feasibility is exactly the conjunction over periods and constraint rows** of
+    `0 ≤ bound ∧ |aggregate|² ≤ bound²` (`bound = limit + max(vt, rt·limit)`), for every topology that
+    passes `topoOk`.  With `line_current_sq` the secondary / panel rows are the 120° quadratics. -/
+theorem feasible_iff (T : Topo) (hT : topoOk T = true) (r vt rt : K) (caps : List K) (S : List (List K)) :
+    feasible T r vt rt caps S = true ↔
+      ∀ t, t < periods S → ∀ i, i < T.rows.length →
+        0 ≤ boundOf T r vt rt caps i ∧
+        aggSq T r caps i (period S t) ≤ boundOf T r vt rt caps i * boundOf T r vt rt caps i :=
+  feasible_iff_rows T (topoFacts_of T hT) r vt rt caps S
+
+/-- the three secondary rows of a transformer accept a current vector **iff** the three quadratics of
+    its per-line-pair sums are at most `m²`, `m = cap·1000/360 + max(vt, rt·cap·1000/360)` — nothing else
+    about the vector matters -/
+theorem secondary_feasible_iff (T : Topo) (hT : topoOk T = true) (x : Xfmr) (hx : x ∈ T.xfmrs)
+    (r vt rt : K) (hr : r * r = 3) (caps v : List K) (hv : v.length = nStations T) :
+    ∃ k ops, xfmrCap T x = some (k, ops) ∧
+      let m := caps.getD k 0 * 1000 / 360 + tolOf vt rt (caps.getD k 0 * 1000 / 360)
+      let X := gsum T x.sec.evses angAB v
+      let Y := gsum T x.sec.evses angBC v
+      let Z := gsum T x.sec.evses angCA v
+      ((∀ i ∈ [x.sec.a, x.sec.b, x.sec.c], 0 ≤ boundOf T r vt rt caps i ∧
+          aggSq T r caps i v ≤ boundOf T r vt rt caps i * boundOf T r vt rt caps i) ↔
+        (0 ≤ m ∧ X * X + X * Z + Z * Z ≤ m * m ∧ X * X + X * Y + Y * Y ≤ m * m ∧ Y * Y + Y * Z + Z * Z ≤ m * m)) := by
+  have G := topoFacts_of T hT
+  obtain ⟨htri, k, ops, N, D, hcap, hla, hlb, hlc, hn, hD, hN⟩ := xfmrFacts_of T x (G.xf x hx)
+  refine ⟨k, ops, hcap, ?_⟩
+  intro m X Y Z
+  have hL := limK_secondary r hr caps k ops N D hn hN
+  have hb : ∀ i, limOf T i = .ofCap k ops → boundOf T r vt rt caps i = m := by
+    intro i hi; unfold boundOf; simp only [hi, hL]; rfl
+  obtain ⟨ea, eb, ec, _⟩ := line_current_sq T hT x.sec htri r hr caps v hv
+  simp only [List.mem_cons, List.not_mem_nil, or_false, forall_eq_or_imp, forall_eq]
+  rw [hb _ hla, hb _ hlb, hb _ hlc, ea, eb, ec]
+  tauto
+
+/-- the wye bound is attained: balanced line-pair sums `x = y = z = m·r/3` put all three line currents
+    exactly at `m` and draw exactly `120·r·(x+y+z) = 360·m` -/
+theorem wye_power_attained (r m : K) (hr : r * r = 3) :
+    let s := m * r / 3
+    s * s + s * s + s * s = m * m ∧ 120 * r * (s + s + s) = 360 * m := by
+  constructor
+  · linear_combination (m * m / 3) * hr
+  · linear_combination (120 * m) * hr
+
+/-- **Tightness, any site / capacity / tolerance.**  A current vector whose three line-pair sums under
+    transformer `x` are balanced at `m·r/3` sits exactly ON the three secondary bounds and draws exactly
+    `cap·1000 + 360·max(vt, rt·cap·1000/360)` at 120√3 V: the allowance of `site_power_bound` (and of the
+    oracle) cannot be lowered. -/
+theorem balanced_draws_full_allowance (T : Topo) (hT : topoOk T = true) (x : Xfmr) (hx : x ∈ T.xfmrs)
+    (r vt rt : K) (hr : r * r = 3) (caps v : List K) (hv : v.length = nStations T) :
+    ∃ k ops, xfmrCap T x = some (k, ops) ∧
+      let m := caps.getD k 0 * 1000 / 360 + tolOf vt rt (caps.getD k 0 * 1000 / 360)
+      (gsum T x.sec.evses angAB v = m * r / 3 → gsum T x.sec.evses angBC v = m * r / 3 →
+       gsum T x.sec.evses angCA v = m * r / 3 →
+        aggSq T r caps x.sec.a v = m * m ∧ aggSq T r caps x.sec.b v = m * m ∧ aggSq T r caps x.sec.c v = m * m ∧
+        120 * r * groupSum x.sec.evses v
+          = caps.getD k 0 * 1000 + 360 * tolOf vt rt (caps.getD k 0 * 1000 / 360)) := by
+  have G := topoFacts_of T hT
+  obtain ⟨htri, k, ops, N, D, hcap, _, _, _, _, _, _⟩ := xfmrFacts_of T x (G.xf x hx)
+  refine ⟨k, ops, hcap, ?_⟩
+  intro m h1 h2 h3
+  obtain ⟨ea, eb, ec, es⟩ := line_current_sq T hT x.sec htri r hr caps v hv
+  obtain ⟨w1, w2⟩ := wye_power_attained r m hr
+  rw [ea, eb, ec, es, h1, h2, h3]
+  refine ⟨w1, w1, w1, ?_⟩
+  rw [w2]; ring
+
+/-- … and such a schedule exists and is ACCEPTED by the whole network (primary rows included):
+    Office001 as generated, 50 kW, default tolerances, √3 ∈ ℝ — a non-negative schedule that
+    `is_feasible` accepts and that draws exactly `50·1000 + 360·max(1e-5, 1e-7·50000/360)` W. -/
+theorem office001_bound_attained :
+    ∃ (r : ℝ) (S : List (List ℝ)), r * r = 3 ∧ S.length = nStations topo2 ∧
+      (∀ row ∈ S, ∀ v ∈ row, 0 ≤ v) ∧ feasible topo2 r (1 / 100000) (1 / 10000000) [50] S = true ∧
+      0 < periods S ∧
+      (topo2.xfmrs.map fun x => 120 * r * groupSum x.sec.evses (period S 0))
+        = [50 * 1000 + 360 * tolOf (1 / 100000) (1 / 10000000) ((50 : ℝ) * 1000 / 360)] := by
+  have h3 : Real.sqrt 3 * Real.sqrt 3 = 3 := Real.mul_self_sqrt (by norm_num)
+  have h0 : 0 ≤ Real.sqrt 3 := Real.sqrt_nonneg 3
+  refine ⟨Real.sqrt 3,
+    [[10000001 / 648000 * Real.sqrt 3], [10000001 / 648000 * Real.sqrt 3], [10000001 / 648000 * Real.sqrt 3],
+     [10000001 / 648000 * Real.sqrt 3], [10000001 / 648000 * Real.sqrt 3], [10000001 / 648000 * Real.sqrt 3],
+     [10000001 / 432000 * Real.sqrt 3], [10000001 / 432000 * Real.sqrt 3]], h3, by decide, ?_, ?_, by decide, ?_⟩
+  · intro row hrow v hv
+    simp only [List.mem_cons, List.not_mem_nil, or_false] at hrow
+    rcases hrow with rfl | rfl | rfl | rfl | rfl | rfl | rfl | rfl <;> simp at hv <;> rw [hv] <;> positivity
+  · simp [feasible, netOf, netFeasible, periods, col, rowOk, magLe, aggRe, aggIm, dotK, sumK, tolOf, pyMax,
+      denseRow, coeff, topo2, limK, evalOps, evalOp, ratK, ofIntK, cosK, sinK, nStations, List.range_succ,
+      List.lookup, angAB, angBC, angCA, List.range_zero]
+    norm_num
+    constructorm* _ ∧ _ <;> nlinarith [h3, h0]
+  · simp [topo2, groupSum, sumK, period, col, tolOf, pyMax]
+    norm_num
+    nlinarith [h3]
+
+/-! ## primary side -/
+
+/-- **Primary rows are implied bounds.**  Each primary row is ¼ of the difference of two secondary rows
+    (checked column by column by `topoOk`), so whenever the two secondary magnitudes are ≤ m the primary
+    magnitude is ≤ m/2 (`4·|I_p|² ≤ m²`).  Hence a primary limit ≥ half the secondary bound (JPL:
+    `√3·` the secondary limit) never binds, and a smaller one (Caltech / Office001: `cap·1000/3/277`) only
+    removes schedules — it cannot admit more power. -/
+theorem primary_implied (T : Topo) (hT : topoOk T = true) (x : Xfmr) (hx : x ∈ T.xfmrs)
+    (r : K) (caps v : List K) (hv : v.length = nStations T) (m : K)
+    (ha : aggSq T r caps x.sec.a v ≤ m * m) (hb : aggSq T r caps x.sec.b v ≤ m * m)
+    (hc : aggSq T r caps x.sec.c v ≤ m * m) :
+    4 * aggSq T r caps x.pa v ≤ m * m ∧ 4 * aggSq T r caps x.pb v ≤ m * m ∧
+    4 * aggSq T r caps x.pc v ≤ m * m := by
+  have G := topoFacts_of T hT
+  have hxo := G.xf x hx
+  have F := tripleFacts_of T x.sec (xfmrFacts_of T x hxo).tri
+  obtain ⟨p1, p2, p3⟩ := xfmr_primaryOk T x hxo
+  have d := triple_den T x.sec F
+  exact ⟨primary_implied_row T G _ _ _ p1 F.ha F.hc (fun j hj => ⟨(d j hj).1, (d j hj).2.2⟩) r caps v hv m ha hc,
+    primary_implied_row T G _ _ _ p2 F.hb F.ha (fun j hj => ⟨(d j hj).2.1, (d j hj).1⟩) r caps v hv m hb ha,
+    primary_implied_row T G _ _ _ p3 F.hc F.hb (fun j hj => ⟨(d j hj).2.2, (d j hj).2.1⟩) r caps v hv m hc hb⟩
+
+/-- non-vacuity of `primary_implied`, and the bound ¼·2² is reached when the two secondary phasors are
+    opposite: ra = m, rc = −m -/
+example : (4 : ℚ) * (((1 - (-1)) / 4) * ((1 - (-1)) / 4) + ((0 - 0) / 4) * ((0 - 0) / 4)) = 1 * 1 := by
+  norm_num
+
 /-- the three sites as they are in the working tree: the power bound holds for each of their
     transformers, for every capacity vector and every accepted schedule -/
 theorem generated_sites_power_bound (T : Topo) (hmem : T ∈ topos) (x : Xfmr) (hx : x ∈ T.xfmrs)
@@ -272,8 +394,7 @@ theorem generated_sites_power_bound (T : Topo) (hmem : T ∈ topos) (x : Xfmr) (
     ∃ k ops, xfmrCap T x = some (k, ops) ∧
       120 * r * groupSum x.sec.evses (period S t)
         ≤ caps.getD k 0 * 1000 + 360 * tolOf vt rt (caps.getD k 0 * 1000 / 360) := by
-  have hall : topos.all topoOk = true := by decide +kernel
-  exact site_power_bound T (List.all_eq_true.mp hall T hmem) x hx r vt rt hr caps S hlen hfeas t ht
+  exact site_power_bound T (List.all_eq_true.mp site_structure_all_voltages.2.1 T hmem) x hx r vt rt hr caps S hlen hfeas t ht
 
 end
 end Acn.C16
